@@ -1,4 +1,4 @@
-package main
+package c09
 
 // C09 — a marshalled project reloads to the same project (YAML and JSON).
 //
